@@ -31,14 +31,24 @@ type Recorder struct {
 	Masks  uint8    // OR of the masks of the Negotiate calls that returned no error
 }
 
+// maxEvents bounds the logs of one run: a handshake takes a few dozen events; a call that
+// spins (it cannot be stopped) must not exhaust the memory while the watchdog runs.
+const maxEvents = 20000
+
 func (r *Recorder) add(e Ev) int {
 	r.mu.Lock()
 	defer r.mu.Unlock()
+	if len(r.Trace) >= maxEvents {
+		return -1
+	}
 	r.Trace = append(r.Trace, e)
 	return len(r.Trace) - 1
 }
 
 func (r *Recorder) setOK(i int, ok bool) {
+	if i < 0 {
+		return
+	}
 	r.mu.Lock()
 	r.Trace[i].OK = ok
 	r.mu.Unlock()
@@ -46,6 +56,10 @@ func (r *Recorder) setOK(i int, ok bool) {
 
 func (r *Recorder) call(v SVal) {
 	r.mu.Lock()
+	if len(r.Calls) >= maxEvents {
+		r.mu.Unlock()
+		return
+	}
 	r.Calls = append(r.Calls, v)
 	vv := v
 	r.Trace = append(r.Trace, Ev{K: "call", V: &vv})
@@ -54,7 +68,9 @@ func (r *Recorder) call(v SVal) {
 
 func (r *Recorder) cbErr(what string) {
 	r.mu.Lock()
-	r.CBErrs = append(r.CBErrs, what)
+	if len(r.CBErrs) < maxEvents {
+		r.CBErrs = append(r.CBErrs, what)
+	}
 	r.mu.Unlock()
 }
 
